@@ -1,6 +1,7 @@
 //! E1: replica simulator. Real `bft::Config::run` x N over harness-owned network, storage, clock,
 //! Byzantine validators and crashes, with online monitors (C01, C02b, C03, C05, C06, C10-L6, C16b).
 mod byz;
+mod chan;
 mod director;
 mod engine;
 mod log;
@@ -14,6 +15,10 @@ fn main() {
     let args = Args::parse();
     vcommon::install_quiet_panic_hook();
     let mut rep = Report::new(&args);
-    scen::run(&args, &mut rep);
+    if args.extra.get("mode").map(|s| s.as_str()) == Some("channel") {
+        chan::run(&args, &mut rep);
+    } else {
+        scen::run(&args, &mut rep);
+    }
     std::process::exit(rep.finish());
 }
